@@ -3,7 +3,7 @@
    for ANY sequence of delivered lines (any combination of altered, dropped, duplicated,
    inserted or truncated bytes yields SOME sequence of lines, or an unparsable one, which
    is [LOther]).  MD5 is the abstract function H; the two digest hypotheses are premises. *)
-From Trzsz Require Import Base.Bytes Model.Protocol Proofs.Protocol.
+From Trzsz Require Import Base.Bytes Model.Path Model.Fs Model.Names Model.Transfer Model.Protocol Model.FaultTie Proofs.Protocol Proofs.FaultTie.
 From Coq Require Import ZArith.
 
 Section C02.
@@ -11,7 +11,8 @@ Variable digest : Type.
 Variable H : list byte -> digest.
 Variable deq : digest -> digest -> bool.
 Hypothesis deq_spec : forall a b, deq a b = true <-> a = b.
-Variable decode decode1 : list byte -> option (list byte).
+Variable decode : list (list byte) -> option (list byte).
+Variable decode1 : list byte -> option (list byte).
 
 (* receiver, protocol >= 2: acceptance implies exact size, decodable stream, matching digest *)
 Theorem C02_receiver_sound_v2 : forall ls size acc w,
@@ -54,6 +55,54 @@ Theorem C02_sender_final : forall as_ size mine, send_final digest deq size mine
   exists pre d rest, as_ = pre ++ AFinal digest size :: ADigest digest d :: rest /\ d = mine
     /\ Forall (fun a => exists s, a = AFinal digest s /\ (s < size)%Z) pre.
 Proof. exact (send_final_sound digest deq deq_spec). Qed.
+
+(* ------------------------------------------------------------------------------------------
+   The whole-transfer receiver (Model/Transfer.v, the machine of C01) under ANY delivered
+   message sequence.  [ft_receive] folds [tr_receiver] over the list and records one [ft_saved]
+   per MD5 message the machine answers with SUCC:<digest> (= per file it reports as saved);
+   the recording does not influence the machine. *)
+Variable zdecomp unzl : list byte -> option (list byte).
+
+Theorem C02_transfer_ghost_transparent : forall c dest ms st g,
+  ft_feed digest H deq zdecomp unzl c dest st ms =
+    (fst (fst (ft_run digest H deq zdecomp unzl c dest st g ms)), snd (fst (ft_run digest H deq zdecomp unzl c dest st g ms))).
+Proof. exact (ft_run_feed digest H deq zdecomp unzl). Qed.
+
+(* SUCC:<digest> is only ever written in answer to an MD5 message, in the phase that waits for
+   it, when the delivered value equals the digest of what was written *)
+Theorem C02_transfer_answer_only_md5 : forall c dest st m x,
+  In (TrSuccDigest digest x) (snd (tr_receiver digest H deq zdecomp unzl c dest st m)) ->
+  exists p w d, rs_phase st = RpMd5 p w /\ m = TrMd5 digest d /\ deq d (H w) = true /\ x = H w.
+Proof. exact (ft_digest_answer digest H deq zdecomp unzl). Qed.
+
+(* the bridging lemma: per-file acceptance by the whole-transfer machine IS acceptance by the
+   per-file decision model (recv_v2 for protocol >= 2, recv_v1 for protocol 1) of exactly the
+   messages delivered for that file, with exactly the bytes the machine wrote *)
+Theorem C02_transfer_bridge : forall c dest f0 sch ms sv,
+  In sv (snd (ft_receive digest H deq zdecomp unzl c dest f0 sch ms)) ->
+  rs_phase (fv_before digest sv) = RpMd5 (fv_payload digest sv) (fv_content digest sv) /\
+  fst (tr_receiver digest H deq zdecomp unzl c dest (fv_before digest sv) (TrMd5 digest (fv_md5 digest sv))) = fv_after digest sv /\
+  In (TrSuccDigest digest (H (fv_content digest sv)))
+     (snd (tr_receiver digest H deq zdecomp unzl c dest (fv_before digest sv) (TrMd5 digest (fv_md5 digest sv)))) /\
+  ft_verdict digest H deq zdecomp unzl c sv = Accept (fv_content digest sv).
+Proof. exact (ft_receive_bridge digest H deq zdecomp unzl). Qed.
+
+Theorem C02_transfer_receiver_sound : forall c dest f0 sch ms sv,
+  In sv (snd (ft_receive digest H deq zdecomp unzl c dest f0 sch ms)) ->
+  fv_md5 digest sv = H (fv_content digest sv) /\
+  (tr_pipeline c = true -> tr_blen (fv_content digest sv) = fv_size digest sv) /\
+  (tr_pipeline c = false -> (fv_size digest sv <= tr_blen (fv_content digest sv))%N).
+Proof. exact (ft_saved_sound digest H deq deq_spec zdecomp unzl). Qed.
+
+(* C02 for the whole transfer: whatever sequence of messages is delivered, every file the
+   receiver reports as saved has digest = the delivered MD5 value and (protocol >= 2) the
+   announced size; hence, under the two digest hypotheses, it equals the source *)
+Theorem C02_transfer_no_silent : forall c dest f0 sch ms sv src,
+  In sv (snd (ft_receive digest H deq zdecomp unzl c dest f0 sch ms)) ->
+  unforged digest H src (fv_content digest sv) (fv_md5 digest sv) ->
+  collision_free_on digest H src (fv_content digest sv) ->
+  fv_content digest sv = src.
+Proof. exact (ft_no_silent digest H deq deq_spec zdecomp unzl). Qed.
 End C02.
 
 Print Assumptions C02_receiver_sound_v2.
@@ -62,14 +111,61 @@ Print Assumptions C02_no_silent_v2.
 Print Assumptions C02_no_silent_v1.
 Print Assumptions C02_sender_sound.
 Print Assumptions C02_sender_final.
+Print Assumptions C02_transfer_ghost_transparent.
+Print Assumptions C02_transfer_answer_only_md5.
+Print Assumptions C02_transfer_bridge.
+Print Assumptions C02_transfer_receiver_sound.
+Print Assumptions C02_transfer_no_silent.
 
 (* non-vacuity: with digest = the content itself, a clean two-frame exchange is accepted *)
 Example C02_nonvacuous :
-  recv_v2 (list byte) (fun x => x) list_eqb (fun x => Some x) 3 []
+  recv_v2 (list byte) (fun x => x) list_eqb (fun fs => Some (concat fs)) 3 []
     [LData _ [1; 2]; LData _ [3]; LData _ []; LMd5 _ [1; 2; 3]] = Accept [1; 2; 3].
 Proof. vm_compute. reflexivity. Qed.
 (* and a flipped payload byte with an intact digest line is rejected *)
 Example C02_flip_rejected :
-  recv_v2 (list byte) (fun x => x) list_eqb (fun x => Some x) 3 []
+  recv_v2 (list byte) (fun x => x) list_eqb (fun fs => Some (concat fs)) 3 []
     [LData _ [1; 7]; LData _ [3]; LData _ []; LMd5 _ [1; 2; 3]] = Reject.
+Proof. vm_compute. reflexivity. Qed.
+
+(* non-vacuity of the whole-transfer statements: protocol 2, binary frames (no table, no
+   compression), plain names, download; digest = the content itself.  A clean delivery of
+   NUM NAME SIZE DATA DATA finish MD5 records one saved file with the bytes delivered ... *)
+Example C02_transfer_nonvacuous :
+  let c := mkTrCfg 2 true false false 0 [] false in
+  let f0 : fs := [([[100]], Dir)] in
+  let ms := [TrNum _ 1; TrName _ (TrPlain [97]); TrSize _ 3; TrData _ [1; 2]; TrKeepAlive _; TrData _ [3]; TrData _ [];
+             TrMd5 _ [1; 2; 3]] in
+  let r := ft_receive (list byte) (fun x => x) list_eqb (fun x => Some x) (fun x => Some x) c [[100]] f0 [] ms in
+  (rs_phase (fst (fst r)), map (fun sv => (fv_size _ sv, fv_content _ sv, fv_md5 _ sv)) (snd r),
+   lookup (st_fs (rs_st (fst (fst r)))) [[100]; [97]]) =
+  (RpDone, [(3%N, [1; 2; 3], [1; 2; 3])], Some (File [1; 2; 3])).
+Proof. vm_compute. reflexivity. Qed.
+(* ... a flipped payload byte with an intact MD5 message records nothing and ends in the failure phase ... *)
+Example C02_transfer_flip_rejected :
+  let c := mkTrCfg 2 true false false 0 [] false in
+  let f0 : fs := [([[100]], Dir)] in
+  let ms := [TrNum _ 1; TrName _ (TrPlain [97]); TrSize _ 3; TrData _ [1; 7]; TrData _ [3]; TrData _ [];
+             TrMd5 _ [1; 2; 3]] in
+  let r := ft_receive (list byte) (fun x => x) list_eqb (fun x => Some x) (fun x => Some x) c [[100]] f0 [] ms in
+  (rs_phase (fst (fst r)), snd r) = (RpFail, []).
+Proof. vm_compute. reflexivity. Qed.
+(* ... a dropped frame (size 3 announced, 2 bytes delivered) with an MD5 message forged to the digest
+   of the damaged content is still refused by protocol >= 2 (pipelineSaveData's step = size) ... *)
+Example C02_transfer_short_rejected :
+  let c := mkTrCfg 2 true false false 0 [] false in
+  let f0 : fs := [([[100]], Dir)] in
+  let ms := [TrNum _ 1; TrName _ (TrPlain [97]); TrSize _ 3; TrData _ [1; 2]; TrData _ []; TrMd5 _ [1; 2]] in
+  let r := ft_receive (list byte) (fun x => x) list_eqb (fun x => Some x) (fun x => Some x) c [[100]] f0 [] ms in
+  (rs_phase (fst (fst r)), snd r) = (RpFail, []).
+Proof. vm_compute. reflexivity. Qed.
+(* ... and protocol 1 (every chunk decoded on its own, the loop may overshoot the announced size):
+   a duplicated chunk with an MD5 message forged to the digest of the longer content IS accepted —
+   the size is only a lower bound there, which is why the digest hypotheses carry the statement *)
+Example C02_transfer_v1_overshoot :
+  let c := mkTrCfg 0 true false false 0 [] false in
+  let f0 : fs := [([[100]], Dir)] in
+  let ms := [TrNum _ 1; TrName _ (TrPlain [97]); TrSize _ 3; TrData _ [1; 2]; TrData _ [1; 2]; TrMd5 _ [1; 2; 1; 2]] in
+  let r := ft_receive (list byte) (fun x => x) list_eqb (fun x => Some x) (fun x => Some x) c [[100]] f0 [] ms in
+  (rs_phase (fst (fst r)), map (fun sv => (fv_size _ sv, fv_content _ sv)) (snd r)) = (RpDone, [(3%N, [1; 2; 1; 2])]).
 Proof. vm_compute. reflexivity. Qed.
